@@ -19,7 +19,8 @@ EXPLANATION = (
     "the metadata object; (R3) atomic publish and pointer-last, shared with C03.R1/R2; (R4) in-flight files are "
     "unreachable: write-once names (C09.R1) and one commit point per attempt (C01.R5)."
     " Also: (R5) a failing pointer read never falls back to 'the highest version on disk'; (R6) read-path methods never store to the handle (no memo); (R7) one commit point per attempt."
-    ' (R8) ambiguity classification of the pointer write (shared with C04.R1): a write that may have landed is never cleaned up as a clean failure, so reads through one handle cannot move backwards.')
+    ' (R8) ambiguity classification of the pointer write (shared with C04.R1): a write that may have landed is never cleaned up as a clean failure, so reads through one handle cannot move backwards.'
+    ' (R9) version / metadata resolution is stateless (shared with C10.R7): reads never answer from a cached metadata version.')
 NOT_DECIDED = "monotonic reads across schedules; atomicity of os.replace / PUT; snapshot equality at run time"
 
 REFRESH = "datashard.metadata_manager.MetadataManager.refresh"
